@@ -494,6 +494,9 @@ pub fn run(args: &Args, rep: &mut Report) {
     }
     // smoke runs of every distinct accepted configuration found by this shard
     for cfg in &accepted {
+        if rep.over_budget() {
+            break;
+        }
         rep.inc("cases");
         rep.inc("smoke_runs");
         _ = rep.distinct("nontrivial", &cfg_json(cfg).to_string());
